@@ -344,7 +344,7 @@ class Scenario:
         self.next_id += 1
         payload = payload_for(mid, n, binary, vocab=self.o["compress"] and rng.random() < 0.7)
         dnc = self.o["compress"] and rng.random() < 0.25
-        apis = ["msg", "msg", "msg", "prepared", "frames", "stream"]
+        apis = ["msg", "msg", "msg", "prepared", "frames", "stream", "rawframes"]
         if self.o["limit"][w]:
             apis = ["msg"]
         api = rng.choice(apis)
@@ -357,9 +357,9 @@ class Scenario:
         exc = ""
         sync = rng.random() < 0.25
         if force_sync is not None:
-            sync, api = force_sync, ("msg" if api in ("frames", "stream") else api)
-        if api == "stream" and self.o["compress"]:
-            dnc = True              # the streaming API never compresses
+            sync, api = force_sync, ("msg" if api in ("frames", "stream", "rawframes") else api)
+        if api in ("stream", "rawframes") and self.o["compress"]:
+            dnc = True              # the streaming API and sendFrame() never compress
         # the send event precedes whatever the call writes (multi-call APIs interleave with network steps)
         sev = dict(ev="send", who=w, id=mid, bin=binary, len=n, dnc=bool(dnc), api=api, exc="")
         self.trace.append(sev)
@@ -374,6 +374,20 @@ class Scenario:
             elif api == "prepared":
                 pm = p.factory.prepareMessage(payload, isBinary=binary, doNotCompress=bool(dnc))
                 p.sendPreparedMessage(pm)
+            elif api == "rawframes":
+                # the low-level frame call, with write chopping: a frame goes to the transport in pieces of `chopsize` octets
+                k = rng.randint(1, 3)
+                cuts = sorted(rng.randint(0, n) for _ in range(k - 1))
+                parts = list(zip([0] + cuts, cuts + [n]))
+                for idx, (a, b) in enumerate(parts):
+                    chop = rng.choice([None, 1, 2, 7, 64, 1000, b - a + 20]) if b - a < 5000 else rng.choice([None, 4096, 65536])
+                    kw = {}
+                    if b - a >= 2 and (b - a) % 2 == 0 and payload[a:b] == payload[a:a + 2] * ((b - a) // 2):
+                        kw = dict(payload_len=b - a)         # (a repeated pattern may be given once, with the length to fill)
+                    p.sendFrame(opcode=((2 if binary else 1) if idx == 0 else 0), payload=(payload[a:a + 2] if kw else payload[a:b]),
+                                fin=(idx == len(parts) - 1), chopsize=chop, sync=rng.random() < 0.3, **kw)
+                    if rng.random() < 0.3 and not self.no_net:
+                        self.net_step()
             elif api == "frames":
                 p.beginMessage(isBinary=binary, doNotCompress=bool(dnc))
                 k = rng.randint(1, 4)
